@@ -732,3 +732,15 @@ pub fn attr_value_roundtrip(
     };
     (encoded, decoded)
 }
+
+/// the object headers a command set writes into a request (CommandHeaders has no other observer)
+pub fn command_headers_bytes(h: &crate::master::CommandHeaders) -> Result<Vec<u8>, String> {
+    let mut buf = vec![0u8; 16384];
+    let mut cursor = scursor::WriteCursor::new(&mut buf);
+    {
+        let mut writer = crate::app::format::write::HeaderWriter::new(&mut cursor);
+        h.write(&mut writer).map_err(|e| format!("{e:?}"))?;
+    }
+    let n = cursor.position();
+    Ok(buf[..n].to_vec())
+}
